@@ -61,6 +61,11 @@ def workload(draw, pool_stmts):
         stmts = stmts[:1]
         names = draw(st.lists(st.sampled_from(["ex", "a", "b", "ns2", "zz", "p1", "q"]), min_size=2, max_size=5, unique=True))
         bindings = [[n, "http://ns-%s.example/%s" % (n, "x#" if i % 2 else "")] for i, n in enumerate(names)]
+    if integration == "rdflib" and phys == "TRIPLES" and entry == "flat_stream_to_frames" and draw(st.booleans()):
+        # ONE rdflib serializer plugin object asked to serialise its (one-triple) graph twice, nothing passed: the second
+        # output must be what a fresh serializer writes
+        entry = "serializer_object_twice"
+        stmts = stmts[:1]
     if integration == "generic" and entry == "stream_frames" and draw(st.booleans()):
         # a generic sink (ordered) with several namespace bindings, declarations switched on
         entry = "stream_frames_sink"
@@ -190,6 +195,23 @@ def make_gen(w, shared=None):
                 yield f.SerializeToString(deterministic=True).hex() if f is not None else "-"
             f = stream.flow.to_stream_frame()
             yield f.SerializeToString(deterministic=True).hex() if f is not None else "-"
+        return g()
+    if w["entry"] == "serializer_object_twice":
+        import rdflib
+
+        from pyjelly.integrations.rdflib.serialize import RDFLibJellySerializer
+
+        def g():
+            graph = rdflib.Graph()
+            for s_ in w["statements"]:
+                graph.add(tuple(T.to_rdflib(t) for t in s_[:3]))
+            plugin = RDFLibJellySerializer(graph)
+            for _ in range(2):
+                if w.get("fresh_each"):
+                    plugin = RDFLibJellySerializer(graph)  # the baseline: a new serializer object per call
+                out = io.BytesIO()
+                plugin.serialize(out)
+                yield out.getvalue().hex()
         return g()
     if w["entry"] == "stream_frames_rdflib_graph":
         import rdflib
@@ -324,7 +346,7 @@ def play_history(case, shared=None):
 def body_interleave(case, acc):
     wl = case["workloads"]
     try:
-        want = [pristine_solo(w) for w in wl]
+        want = [pristine_solo({**w, "fresh_each": True} if w.get("entry") == "serializer_object_twice" else w) for w in wl]
     except RuntimeError as exc:
         return Violation("C12:solo-raises", f"{exc}", case)
     shared = {}
@@ -360,6 +382,7 @@ def body_interleave(case, acc):
                  + (["switches_ge_10"] if switches >= 10 else []) + (["shared_iris"] if shared_iris else [])
                  + (["shared_options_object"] if len(shared) < n_sharing else [])
                  + (["statement_level_steps"] if any(w.get("entry") == "steps" for w in wl) else [])
+                 + (["serializer_object_twice"] if any(w.get("entry") == "serializer_object_twice" for w in wl) else [])
                  + (["parse_twins_equal_options"] if sum(1 for w in wl if w.get("twin")) >= 2 else [])
                  + (["rdflib_parse"] if any(w["type"] == "parse" and w.get("integration") == "rdflib" for w in wl) else []))
     for i, (g, w) in enumerate(zip(got, want)):
@@ -372,7 +395,7 @@ def body_interleave(case, acc):
 # ----------------------------------------------------------------------- threads
 def body_threads(case, acc):
     wl = case["workloads"]
-    want = [pristine_solo(w) for w in wl]
+    want = [pristine_solo({**w, "fresh_each": True} if w.get("entry") == "serializer_object_twice" else w) for w in wl]
     reps = case.get("reps", 30)
     results = [None] * len(wl)
     barrier = threading.Barrier(len(wl))
